@@ -131,13 +131,39 @@ class Prov:
                     if least is not None and gk + least >= kk and self.safe(g.group(2), p, i, depth + 1): return True
         return False
 
+    def counter_max(self, v0):
+        """largest value a loop counter can have at a loop head / after the loop: it starts at a constant and every
+        assignment is `counter + 1` on a path that has passed `counter < K` (or `<= K`) in the same iteration"""
+        vals = self.assigned.get(v0, [])
+        if not vals: return None
+        bound = None
+        for q, j, v in vals:
+            if re.fullmatch(r'-?\d+', v):
+                bound = max(bound, int(v)) if bound is not None else int(v); continue
+            m = re.fullmatch(r"\((" + re.escape(v0) + r"@L\d+'*|\d+) \+ 1\)", v)
+            if not m: return None
+            prev = m.group(1); k = None
+            for e in reversed(q.events[:j]):
+                if e[0] == 'loop' and (e[1].endswith(':enter') or e[1].endswith(':again')) and k is None:
+                    pass
+                if e[0] == 'cond':
+                    g = re.fullmatch(re.escape('(' + prev) + r' (<|<=) (\d+)\)', e[1])
+                    if g and e[2]: k = int(g.group(2)) + (0 if g.group(1) == '<' else 1); break
+            if k is None:
+                if prev.isdigit(): k = int(prev) + 1
+                else: return None
+            bound = max(bound, k) if bound is not None else k
+        return bound
+
     def array_terminated(self, A, p, i):
         """local array used as a string: the last bulk write into it is followed by A[len] = 0, or a library filled it"""
         last = None
         for j, e in enumerate(p.events[:i]):
             if e[0] == 'call' and e[1] == 'memcpy' and e[2][0] == A: last = (j, e[2][2])
             if e[0] == 'call' and e[1] == 'idn_res_encodename' and len(e[2]) >= 5 and e[2][3] == A: return True
-        if last is None: return False
+        if last is None:
+            # filled element by element: a NUL must have been stored into it before the use
+            return any(e[0] == 'set' and e[1].startswith(A + '[') and e[2] in ('0', "'\\x00'") for e in p.events[:i])
         return any(e[0] == 'set' and e[1] == f'{A}[{last[1]}]' and e[2] in ('0', "'\\x00'") for e in p.events[last[0]:i])
 
 
@@ -263,6 +289,14 @@ def run(ck):
                         if m2:
                             sl = [c for c in p.events[:i] if c[0] == 'call' and c[3] == m2.group(2)]
                             endish = bool(sl) and sl[0][2] == (m2.group(1),) and pv.safe(m2.group(1), p, i)
+                        m3 = re.fullmatch(r"\((.+) \+ \((strlen#\d+'*) - (\d+)\)\)", a)
+                        if m3:
+                            # end pointer moved back by n bytes: needs strlen >= n established on the path
+                            sl = [c for c in p.events[:i] if c[0] == 'call' and c[3] == m3.group(2)]
+                            nn = int(m3.group(3))
+                            ge = any(x[0] == 'cond' and ((re.fullmatch(re.escape('(' + m3.group(2)) + r' >= (\d+)\)', x[1]) and x[2] and int(re.fullmatch(re.escape('(' + m3.group(2)) + r' >= (\d+)\)', x[1]).group(1)) >= nn)
+                                                       or (re.fullmatch(re.escape('(' + m3.group(2)) + r' > (\d+)\)', x[1]) and x[2] and int(re.fullmatch(re.escape('(' + m3.group(2)) + r' > (\d+)\)', x[1]).group(1)) >= nn - 1)) for x in p.events[:i])
+                            endish = bool(sl) and sl[0][2] == (m3.group(1),) and pv.safe(m3.group(1), p, i) and ge
                         if not (endish or pv.safe(a, p, i)): bad.setdefault(f'{e[1]}({", ".join(e[2])}): argument {a} is not known to point into the string', where(e[4]))
                 if e[0] == 'call' and e[1] == 'memcpy':
                     dst, src, ln = e[2]
@@ -284,7 +318,11 @@ def run(ck):
                 if e[0] == 'set' and re.fullmatch(r'(\w+)\[(.+)\]', e[1]) and e[1].split('[')[0] in pv.arrays:
                     A = e[1].split('[')[0]; idx = e[1][len(A) + 1:-1]; nbuf += 1
                     conds = len_conds(p, idx, i); size = pv.arrays[A]
-                    if not (idx.isdigit() and int(idx) < size) and (not conds or any(shared_admits(conds, x) for x in (size, size + 1, size * 2, 10 ** 6))):
+                    cm = None
+                    mm = re.fullmatch(r"(\w+)@L\d+'*", idx)
+                    if mm: cm = pv.counter_max(mm.group(1))
+                    if cm is not None and cm < size: pass
+                    elif not (idx.isdigit() and int(idx) < size) and (not conds or any(shared_admits(conds, x) for x in (size, size + 1, size * 2, 10 ** 6))):
                         badbuf.setdefault(f'{e[1]} := {e[2]}: index not bounded below {size}', where(e[3]))
                 # offset dereferences in conditions / values
                 for s in eavobj.event_values(e):
